@@ -30,9 +30,9 @@ META = {
 def case(draw):
     kinds = ["plateau", "plateau", "multipeak", "multipeak", "monotone", "random", "nan", "sparse", "smooth"]
     if draw(st.integers(0, 2)) == 0:
-        s = draw(GS.spec2d_case(max_nf=20, max_nd=24, max_cells=6000, kinds=kinds, max_len=4))
+        s = draw(GS.spec2d_case(max_nf=20, max_nd=24, max_cells=6000, kinds=kinds, max_len=4, history=True))
     else:
-        s = draw(GS.spec1d_case(kinds=kinds, max_len=8, layouts=["none", "t", "t", "tl", "flat"]))
+        s = draw(GS.spec1d_case(kinds=kinds, max_len=8, layouts=["none", "t", "t", "tl", "flat"], history=True))
     b = draw(GS.band(s["f"], kinds=("default", "default", "random", "random", "grid", "grid", "single", "empty")))
     return {"spec": s, **b}
 
@@ -55,6 +55,8 @@ def run(c):
         e, a1, b1 = a["e"], a["a1"], a["b1"]
     idx, amb, has = peak_ref(f, e, fmin, fmax)
     classes = ["band_" + c["band"], "layout_" + sc["layout"], "spec_" + sc["kind"], "values_" + sc["values"]]
+    if sc.get("history"):
+        classes.append("object_modified_in_place_after_earlier_queries")
     spec = GS.build(sc)
     ar = np.arange(n)
     nontriv = False
